@@ -73,6 +73,9 @@ ParseStep(m, e) ==
 
 \* ---- find clause ----------------------------------------------------------------------------------------
 FindStep(m, e) ==
+    IF e.noel THEN [ok |-> FALSE, why |-> "the parsed tree has no element " \o ToString(e.at) \o " to start the lookup from",
+                    sig |-> "find:no_start_element"]
+    ELSE
     LET S == FindAll(m.pre, e.at, e.path, e.filt, e.an, e.av)
         H == SeqToSet(e.hits)
         shape == (IF Len(e.path) >= 2 /\ e.path[1] = SL /\ e.path[2] = SL THEN "rooted" ELSE "relative")
